@@ -71,7 +71,8 @@ def build_cases(thorough):
     gen = plancorpus.generated()
     cats = list(plancorpus.CATALOGS)
     for i, sql in enumerate(gen):
-        use = cats if thorough else [cats[i % len(cats)], cats[(i + 2) % len(cats)]]
+        # statements with a time-series model meet every catalog form (settings are normalised per form); others rotate
+        use = cats if (thorough or 'mindsdb.tp' in sql) else [cats[i % len(cats)], cats[(i + 2) % len(cats)]]
         for c in use:
             cases.append((sql, plancorpus.catalog(c, with_ts=True), None, c))
     return cases
